@@ -988,3 +988,102 @@ func fmtMethod(fn *ssa.Function) bool {
 	}
 	return false
 }
+
+// callRecordNames over-approximates the names under which a call instruction
+// (and the calls of callees that may be executed in place) can be entered in
+// the ghost call records of the function under verification. "*" = any name.
+func (e *Engine) callRecordNames(cc *ssa.CallCommon, out map[string]bool, depth int, seen map[*ssa.Function]bool) {
+	addNamed := func(t types.Type, m string) {
+		out[m] = true
+		if p, ok := t.(*types.Pointer); ok {
+			t = p.Elem()
+		}
+		if n, ok := t.(*types.Named); ok {
+			short := n.Obj().Name() + "." + m
+			out[short] = true
+			if n.Obj().Pkg() != nil {
+				out[n.Obj().Pkg().Name()+"."+short] = true
+			}
+		}
+	}
+	var body func(fn *ssa.Function)
+	body = func(fn *ssa.Function) {
+		if fn == nil || seen[fn] || len(fn.Blocks) == 0 {
+			return
+		}
+		if depth > 6 {
+			out["*"] = true
+			return
+		}
+		seen[fn] = true
+		for _, b := range fn.Blocks {
+			for _, in := range b.Instrs {
+				if ci, ok := in.(ssa.CallInstruction); ok {
+					e.callRecordNames(ci.Common(), out, depth+1, seen)
+				}
+				if mc, ok := in.(*ssa.MakeClosure); ok {
+					if g, ok := mc.Fn.(*ssa.Function); ok {
+						sub := depth
+						depth++
+						body(g)
+						depth = sub
+					}
+				}
+			}
+		}
+	}
+	if cc.IsInvoke() {
+		addNamed(cc.Value.Type(), cc.Method.Name())
+		// implementations whose contract is applied record under the interface
+		// name only; nothing else to add
+		return
+	}
+	callee := cc.StaticCallee()
+	if callee == nil {
+		// function value: a field name, a closure, or unknown
+		switch v := cc.Value.(type) {
+		case *ssa.MakeClosure:
+			if g, ok := v.Fn.(*ssa.Function); ok {
+				body(g)
+			}
+			return
+		case *ssa.UnOp:
+			if fa, ok := v.X.(*ssa.FieldAddr); ok {
+				if stt, ok := deref(fa.X.Type()).Underlying().(*types.Struct); ok {
+					out[stt.Field(fa.Field).Name()] = true
+				}
+			}
+		}
+		// a function value of unknown origin may be a closure of this function
+		out["*"] = true
+		return
+	}
+	if callee.Origin() != nil && callee.Origin() != callee {
+		out[callee.Origin().Name()] = true
+	}
+	out[callee.Name()] = true
+	if callee.Signature.Recv() != nil {
+		addNamed(callee.Signature.Recv().Type(), callee.Name())
+	} else if callee.Pkg != nil {
+		out[callee.Pkg.Pkg.Name()+"."+callee.Name()] = true
+	}
+	if !inModule(callee) {
+		return
+	}
+	if blk := e.ld.ByFn[callee]; blk != nil && !blk.IsGhostDecl && callee.Parent() == nil {
+		// called by contract (or inlined small leaf with its own block: its
+		// inner calls are recorded too when executed in place)
+		if !smallLeaf(callee) {
+			return
+		}
+	}
+	body(callee)
+	// function-valued arguments (closures) may be run by the callee
+	for _, a := range cc.Args {
+		if mc, ok := a.(*ssa.MakeClosure); ok {
+			if g, ok := mc.Fn.(*ssa.Function); ok {
+				body(g)
+			}
+		}
+	}
+}
